@@ -28,6 +28,10 @@ type boxHist struct {
 	LastV   uint32
 	MaxV    uint32
 	LastObj uint64 // internal mailbox id last seen under this name
+	// ObjV: UIDVALIDITY each mailbox object had when it was last seen under this name. An object that comes BACK to a
+	// name it held before (RENAME away and back) with the value it had then continues its own UID history (which the
+	// per-value checks below keep judging); only a different object has to come with a greater value.
+	ObjV map[uint64]uint32
 }
 
 type c04run struct {
@@ -295,7 +299,7 @@ func (r *c04run) observe(kind string, ann *announce) []explore.Violation {
 		switch {
 		case h.LastObj != 0 && h.LastObj != mb.ID:
 			// the name was deleted and re-created (or taken over by a rename)
-			if val <= h.MaxV {
+			if back, ok := h.ObjV[mb.ID]; val <= h.MaxV && !(ok && back == val) {
 				out = append(out, r.viol("uidvalidity", kind+"/recreate", fmt.Sprintf("mailbox name %s re-created with UIDVALIDITY %d, earlier values went up to %d", mb.Name, val, h.MaxV)))
 			}
 		case h.LastObj == mb.ID && val != h.LastV:
@@ -304,6 +308,10 @@ func (r *c04run) observe(kind string, ann *announce) []explore.Violation {
 			}
 		}
 		h.LastObj, h.LastV = mb.ID, val
+		if h.ObjV == nil {
+			h.ObjV = map[uint64]uint32{}
+		}
+		h.ObjV[mb.ID] = val
 		if val > h.MaxV {
 			h.MaxV = val
 		}
@@ -391,6 +399,14 @@ func (r *c04run) Canon() string {
 	for _, n := range names {
 		h := r.hist[n]
 		fmt.Fprintf(&b, "H[%s lastV=%d maxV=%d obj=%d", n, h.LastV, h.MaxV, h.LastObj)
+		var objs []int
+		for o := range h.ObjV {
+			objs = append(objs, int(o))
+		}
+		sort.Ints(objs)
+		for _, o := range objs {
+			fmt.Fprintf(&b, " o%d@%d", o, h.ObjV[uint64(o)])
+		}
 		var vs []int
 		for x := range h.Seen {
 			vs = append(vs, int(x))
